@@ -33,6 +33,16 @@ Aliasing: every array / list handed to a setter, the power vector and the channe
     bit-identical after the call; the caller then re-uses its buffers (list slots rebound, in-place scaling
     of the full_F matrices and of the P vector): the solver must not change.
 
+Error paths: in every distinct state a list of INVALID calls (P = 0 / negative / sequence with a zero / wrong
+    length, set_precoders(), set_receive_filters() with neither / both, solve with an Ns of wrong length or a
+    non-positive power, randomizeF with a non-positive power, unknown initialize_with) must raise and leave the
+    whole object (digest of all attributes, channel included) exactly as it was.
+initialize_with='fix' (E1: precoders set by hand or left by an earlier solve with another power; E3: event
+    `initialize_with = 'fix'` followed by solve(Ns, P0) / solve(Ns, other P) / solve(Ns)): all relations for the
+    REQUESTED power, and equality with a fresh solver continued from the same precoders.
+Several live objects: two solvers of one class (other channel member, other power) created together and used
+    alternately must each end up identical (whole-object digest) to the same call sequence on a single object.
+
 Randomness is owned: solver._rs (and the embedded alt-min solver's) is re-seeded before every solve /
 randomizeF, or the deterministic initialisations svd / closed_form are used.
 """
@@ -58,7 +68,10 @@ RULE = ("E1: every (solver, K, Nr, Nt, Ns, initialize_with, power, generic chann
         "(all attributes, caches, sub-solvers; taken before the invariants read any view) coincides; "
         "every transition is executed on the implementation and all 8 public views are compared with the "
         "reference model; the alphabet includes channel-side events (new realisation, path loss, noise) "
-        "of the bound channel object and caller-side re-use of the buffers passed to the setters")
+        "of the bound channel object, caller-side re-use of the buffers passed to the setters, "
+        "initialize_with='fix' and solve with the base / another / no power; in every distinct state a list "
+        "of invalid calls must raise and leave the whole-object digest unchanged; every history of length "
+        "<= 2 is also run on two alternately used live objects")
 
 EPS = 2.0 ** -52
 UNIT_TOL = 1e-12            # | ||F_k||_F - 1 |
@@ -607,12 +620,10 @@ def e3_bases(tier):
              P0=1.0, noise=None),
     ]
     if tier != "thorough":
-        # quick: one base per solver class (closed form: the multi-stream one, AltMin: the Ns=3 one,
-        # MinLeakage with the cheaper seeded random initialisation)
-        out = [dict(x, part="E3", s=0) for i, x in enumerate(b) if i not in (0, 1)]
-        return [dict(x, init="random") if x["solver"] == "MinLeakageIASolver" else x for x in out]
+        # quick: every base but the second AltMin one (AltMin: the Ns=3 base)
+        return [dict(x, part="E3", s=0) for i, x in enumerate(b) if i != 1]
     out = [dict(x, part="E3", s=0) for x in b]
-    out += [dict(x, part="E3", s=1) for x in b[:4]]      # second channel member: small bases
+    out += [dict(x, part="E3", s=1) for x in b[:2]]      # second channel member: two small bases
     return out
 
 
@@ -625,7 +636,7 @@ EVENTS_QUICK = ([("read", r) for r in READS] +
                  ("setWH", "array"), ("setW", "array"),
                  ("randF", 5), ("solve", 0), ("solve", "P2"), ("initwith", "fix")] + CHAN_EVENTS_QUICK)
 EVENTS_QUICK.remove(("read", "W_H"))      # (reading full_W_H populates the W_H cache as well)
-EVENTS = EVENTS_QUICK + [("read", "W_H"), ("P", 2.0), ("setWH", "list"), ("chan", "pl", None),
+EVENTS = EVENTS_QUICK + [("read", "W_H"), ("setWH", "list"), ("chan", "pl", None),
                          ("solve", "noP")]      # thorough
 PV_SOLVE2 = (3.0, 1e-3, 40.0)
 
@@ -1308,6 +1319,11 @@ class E3Job:
             # channel events per history: at most one (quick) / two (thorough)
             if sum(1 for e in hist if e[0] == "chan") >= (2 if chk.tier == "thorough" else 1):
                 evs = [e for e in evs if e[0] != "chan"]
+            if len(hist) == job.depth - 1:
+                # last position of a history: a read (the invariants read every view anyway), a channel
+                # change (nothing is judged before the next solver-side call) or a configuration
+                # switch cannot show anything the prefix state does not show
+                evs = [e for e in evs if e[0] not in ("read", "chan", "initwith")]
             return evs
 
         def invariant(hist, st):
@@ -1420,6 +1436,8 @@ def main(chk: Check):
                "cached full_W_H / full_W are not judged: the solver is not told about channel changes")
     chk.assume("E3 pruning: a getter read twice with no mutator in between is the same state; at most one "
                "(quick) / two (thorough) channel events per history")
+    chk.assume("E3 pruning: reads, channel changes and initialize_with switches are not taken as the LAST event "
+               "of a maximal-length history (they only matter through a later solver-side call)")
     chk.assume("max_iterations = 0 is outside the enumerated alphabet (only used to observe the initial cost)")
     chk.extra.update(dict(UNIT_TOL=UNIT_TOL, POWER_RTOL=POWER_RTOL, MMSE_POWER_RTOL=MMSE_POWER_RTOL,
                           IDENT_C=IDENT_C, KAPPA_MAX=KAPPA_MAX, COST_RTOL=COST_RTOL, COST_ATOL=COST_ATOL,
